@@ -97,4 +97,36 @@ def reconstructB (l e z : Nat) : Nat := divCeil (divCeil l z) e
 /-- what the parser stores: `maximum_source_block_length as u32` -/
 def reconstructB32 (l e z : Nat) : Nat := reconstructB l e z % 2^32
 
+/-- what the EXT_FTI / FDT parsers of RaptorQ and Raptor hand to the receiver as maximum source block length:
+    `E = 0` and `Z = 0` are rejected before the reconstruction (alcraptorq.rs / alcraptor.rs `get_fti`; linked to the wire
+    model's parser by `Props/C07Link.fti_raptorq_maxSbl`) -/
+def ftiMaxSbl (l e z : Nat) : Option Nat := if e = 0 ∨ z = 0 then none else some (reconstructB32 l e z)
+
+/-- the blocks the sender cuts for an object of `l` bytes (fuel `l + 1 ≥ N`); an empty object has no block to cut here -
+    what the real sender emits for `L = 0` is owned by C08 / C20 (engine benc), the theorems of C07 are for `0 < L` -/
+def senderBlocksOf (q : Quad) (l e : Nat) : List (Nat × Nat × Nat) :=
+  if l = 0 then [] else senderBlocks q l e (l + 1) 0 0
+
+/-- Block-structure outcome of a loss-free session, as far as the partitioning decides it (this is what the `rcv` op of
+    engine `part` observes on a real sender → receiver run, all five schemes): the sender cuts the object with the
+    partition of the OTI's `B`; the receiver partitions with the `B` it knows - for RaptorQ / Raptor (`scheme` 3, 4) the
+    one it reconstructs from `Z = N`, stored as `u32` - and the object completes exactly when, for every block, the
+    source block length the receiver assumes (`receiverBlockSymbols`; for RS under-specified, `scheme` 2, the wire-borne
+    one, i.e. the sender's own count) is the number of source symbols the sender cut.  Then one write per block, of
+    `blockLength` bytes: `some lens`.  `none` = the object cannot complete. -/
+def cleanSession (scheme b l e : Nat) : Rs (Option (List (Rs Nat))) :=
+  match blockPartitioning b l e with
+  | .error w => .error w
+  | .ok qs =>
+    let bRx := if scheme = 3 ∨ scheme = 4 then reconstructB32 l e qs.2.2.2 else b
+    match blockPartitioning bRx l e with
+    | .error w => .error w
+    | .ok qr =>
+      let snd := senderBlocks qs l e (l + 1) 0 0
+      let agree := decide (snd.length = qr.2.2.2) && (List.range qr.2.2.2).all fun sbn =>
+        let kTx := (snd.getD sbn (0, 0, 0)).1
+        let kRx := if scheme = 2 then kTx else receiverBlockSymbols qr sbn
+        decide (kTx = kRx)
+      if agree then .ok (some ((List.range qr.2.2.2).map (blockLength qr.1 qr.2.1 qr.2.2.1 l e))) else .ok none
+
 end Flute.Partition
